@@ -29,6 +29,7 @@ func goEnv() []string {
 // as overlay files named zz_verif_<name>.go.
 func Load(dir string, harnessDirs []string, extra map[string][]byte) (*Loaded, error) {
 	overlay := map[string][]byte{}
+	pkgName := PkgNameOf(dir)
 	for _, hd := range harnessDirs {
 		files, _ := filepath.Glob(filepath.Join(hd, "*.go"))
 		for _, f := range files {
@@ -39,7 +40,7 @@ func Load(dir string, harnessDirs []string, extra map[string][]byte) (*Loaded, e
 			if err != nil {
 				return nil, err
 			}
-			overlay[filepath.Join(dir, "zz_verif_"+filepath.Base(f))] = b
+			overlay[filepath.Join(dir, "zz_verif_"+filepath.Base(f))] = RewritePackage(b, pkgName)
 		}
 	}
 	for k, v := range extra {
@@ -62,6 +63,38 @@ func Load(dir string, harnessDirs []string, extra map[string][]byte) (*Loaded, e
 	prog, spkgs := ssautil.AllPackages(pkgs, ssa.InstantiateGenerics)
 	prog.Build()
 	return &Loaded{Prog: prog, Pkg: spkgs[0], Pkgs: pkgs, Dir: dir}, nil
+}
+
+// PkgNameOf returns the package name declared by the Go files in dir.
+func PkgNameOf(dir string) string {
+	files, _ := filepath.Glob(filepath.Join(dir, "*.go"))
+	for _, f := range files {
+		if strings.HasSuffix(f, "_test.go") {
+			continue
+		}
+		b, err := os.ReadFile(f)
+		if err != nil {
+			continue
+		}
+		for _, l := range strings.Split(string(b), "\n") {
+			if strings.HasPrefix(l, "package ") {
+				return strings.TrimSpace(strings.TrimPrefix(l, "package "))
+			}
+		}
+	}
+	return "main"
+}
+
+// RewritePackage replaces the package clause of a harness file.
+func RewritePackage(src []byte, name string) []byte {
+	lines := strings.Split(string(src), "\n")
+	for i, l := range lines {
+		if strings.HasPrefix(l, "package ") {
+			lines[i] = "package " + name
+			break
+		}
+	}
+	return []byte(strings.Join(lines, "\n"))
 }
 
 // RunInit executes the package initializer leniently and snapshots memory.
